@@ -425,6 +425,11 @@ class Ctx:
     def finish(self):
         if self._distinct:
             self.cov["distinct_nontrivial"] += len(self._distinct)
+        if not self.cov["samples"]:
+            # a monitor that only keeps aggregates: the evidence still shows something it observed (first aggregate entries)
+            agg = {k: (dict(list(v.items())[:4]) if isinstance(v, dict) else v) for k, v in self.cov.items()
+                   if k not in ("samples", "rule", "evaluations", "distinct_nontrivial") and v not in (None, {}, [])}
+            self.cov["samples"].append({"aggregate_only": True, "observed": dict(list(agg.items())[:6])})
         ev = {
             "property_id": self.pid, "tier": self.tier, "seed": self.seed, "level": self.level,
             "coverage": self.cov, "assumptions": self.assumptions,
